@@ -1,15 +1,17 @@
 #!/bin/sh
-# tools/tryseed.sh <patch.diff> <Cxx> [Cyy ...] : apply a seeded change to /repo, run the quick
-# checks, print what each reports, and undo the change again. Never commits anything to /repo.
+# tools/tryseed.sh <patch.diff> <Cxx> [Cyy ...] : apply a seeded change to the repository, run the
+# quick checks, print what each reports, and undo the change again. Never commits anything.
+# VERIF_DIR / VERIF_REPO (default /verif, /repo) point it at snapshot copies for background runs.
 patch="$1"; shift
+V="${VERIF_DIR:-/verif}"; R="${VERIF_REPO:-/repo}"
 # runs against a changed tree must not overwrite the evidence of the unchanged one
 export VERIF_EVIDENCE_DIR=/tmp/verif_seed_evidence; mkdir -p $VERIF_EVIDENCE_DIR
-cd /repo || exit 2
-if ! git diff HEAD --quiet; then echo "tryseed: /repo has uncommitted changes, refusing"; exit 2; fi
+cd "$R" || exit 2
+if ! git diff HEAD --quiet; then echo "tryseed: $R has uncommitted changes, refusing"; exit 2; fi
 git apply "$patch" || { echo "tryseed: patch does not apply"; exit 2; }
 for c in "$@"; do
-  out=$(cd /verif && ./vcheck "$c" --tier quick 2>&1); rc=$?
+  out=$(cd "$V" && ./vcheck "$c" --tier quick 2>&1); rc=$?
   sigs=$(echo "$out" | grep -E "^  signature:" | sed 's/^  signature: //' | cut -c1-110 | sort -u | head -4 | tr '\n' '|')
   echo "$c rc=$rc $(echo "$out" | grep -c '^VIOLATION') violation(s) $sigs $(echo "$out" | grep -E '^BROKEN' | cut -c1-200)"
 done
-git -C /repo reset -q --hard HEAD && git -C /repo clean -fdq
+git -C "$R" reset -q --hard HEAD && git -C "$R" clean -fdq
